@@ -231,6 +231,8 @@ class System(PrintObject):
       # For each instance of the signal sequence, build a structure to 
       #   constrain it to the master signal sequence
       done = set()  # A port bound to this signal twice (as an input and as an output) gets one connector
+      # ... and one bound in both orientations gets two, which need two names
+      bound = set((comp_name + "-" + getattr(loc_seq, "name", loc_seq), wc) for loc_seq, comp_name, wc in self.signals[signal])
       for loc_seq, comp_name, wc in self.signals[signal]:
         if isinstance(loc_seq, DNA_classes.Sequence):
           sig_name = comp_name + "-" + loc_seq.name
@@ -247,6 +249,8 @@ class System(PrintObject):
         if (dummy_name, wc) in done:
           continue
         done.add((dummy_name, wc))
+        if wc and (sig_name, False) in bound:
+          dummy_name += "-_rc"
         outfile.write("structure %s = %s\n" % (dummy_name, "(" * length + "+" + ")" * length))
         
         if wc: # If it's complementary to the signal, then we can enforce that directly
